@@ -52,7 +52,13 @@ def check_assembly(ctx, case):
     r1, p1, _ = impl.run_asm(asm.asm_op(rcase))
     f0, f1 = r0.split("\t"), r1.split("\t")
     if f0[0] != f1[0]:
-        ctx.fail("the assembly gives {} but the assembly of the reverse complements gives {}".format(f0[:2], f1[:2]), case)
+        # known finding: map building only screens the modules' *start* overhangs for reverse-complementary
+        # pairs, so a clash that involves the vector's upstream overhang is seen on one strand only
+        key = None
+        if {f0[0], f1[0]} == {"ok", "err"} and "duplicate" in (f0[1], f1[1]) and case.get("clash") == "vector-upstream":
+            key = "rc-screen-ignores-vector-upstream-overhang"
+        ctx.fail("the assembly gives {} but the assembly of the reverse complements gives {}".format(f0[:2], f1[:2]),
+                 case, key=key)
     elif f0[0] == "ok":
         if asm.canon_rot(str(p1.seq)) != asm.canon_rot(gen.rc(str(p0.seq))):
             ctx.fail("assembling the reverse complements yields {} which is not the reverse complement of {}".format(
@@ -77,6 +83,34 @@ def run(ctx):
         if g is None:
             continue
         ctx.guard(check_assembly, g[0])
+    # junction overhangs that clash only through the vector's upstream overhang (palindromic, or the reverse
+    # complement of an inner junction): the documented asymmetry of the duplicate screen
+    for enz in asm.pick_enzymes(rng, ctx.budget(30, 600)):
+        site, off, k = gen.geom(enz)
+        if k < 2:
+            continue
+        fb = (site, gen.rc(site))
+        ovs = gen.distinct_overhangs(rng, k, 3, fb)
+        if len(ovs) < 3:
+            continue
+        if k % 2 == 0 and rng.random() < 0.6:
+            half = gen.rnd_avoid(rng, k // 2, fb)
+            up = half + gen.rc(half)                 # palindromic upstream overhang of the vector
+        else:
+            up = gen.rc(ovs[1])                      # reverse complement of the inner junction
+        if up in ovs[:2] or gen.rc(up) == ovs[0] or any(x in up for x in fb):
+            continue
+        try:
+            vw, vd = gen.gen_vector(rng, enz, o5=ovs[0], o3=up, tries=200)
+            m1, _ = gen.gen_module(rng, enz, ovs[0], ovs[1], tries=200)
+            m2, _ = gen.gen_module(rng, enz, ovs[1], up, tries=200)
+        except RuntimeError:
+            continue
+        name = str(enz)
+        case = {"enz": name, "vector": asm.ent_json(0, "generic:V:" + name, vw),
+                "mods": [asm.ent_json(1, "generic:M:" + name, m1), asm.ent_json(2, "generic:M:" + name, m2)],
+                "pid": 1, "pname": 2, "clash": "vector-upstream"}
+        ctx.guard(check_assembly, case)
     if ctx.tier == "thorough" and ctx.scale == 1:
         import boot
         import extract
